@@ -327,6 +327,10 @@ func (g *RGen) genCampaign() ROp {
 		}
 	}
 	total := base * pick(g.r, []int64{1, 2, 5, 20, 50})
+	if o.Ty == 8 && g.chance(0.4) {
+		// a pool that a single bonus can exhaust: the insufficient-pool path of percentage campaigns
+		total = pick(g.r, []int64{20, 150, 900, 5000})
+	}
 	switch {
 	case g.chance(0.03):
 		total = sum - 1 // less than one reward: invalid (or non-positive)
